@@ -123,8 +123,9 @@ def echo_program(r, hazards=None):
         elif g[2] and k < 0.7:
             h = r.choice(funcs)
             if h[1] >= 1 and h[2]:
-                inner = ", ".join([f"{g[0]}({args})"] + [_arg(r, []) for _ in range(h[1] - 1)])
-                main.append(f"    {cells.next()} = {h[0]}({inner})")
+                parts = [_arg(r, []) for _ in range(h[1] - 1)]
+                parts.insert(r.randint(0, len(parts)), f"{g[0]}({args})")  # the inner call in any argument position
+                main.append(f"    {cells.next()} = {h[0]}({', '.join(parts)})")
             else:
                 main.append(f"    {cells.next()} = {g[0]}({args})")
         elif k < 0.85:
@@ -168,6 +169,9 @@ def once_called_program(r):
         L.append(f"def {nm}({', '.join(ps)}):")
         L += body
         funcs.append((nm, npar, ret))
+    if r.random() < 0.4:
+        # the module-level initialisation of the global stands below the functions that assign it
+        L = L[1:] + [L[0]]
     main = ["while True:", "    yield_()"]
     calls = []
     once = set(r.sample(range(len(funcs)), r.randint(1, max(1, len(funcs) - 1))))
@@ -176,7 +180,13 @@ def once_called_program(r):
             c = f"{nm}({', '.join(_arg(r, []) for _ in range(npar))})"
             calls.append(f"    {cells.next()} = {c}" if ret and r.random() < 0.6 else f"    {c}")
     r.shuffle(calls)
-    return HEADER + "\n".join(L + main + calls + [f"    {cells.next()} = total"]) + "\n"
+    if r.random() < 0.35:
+        # a function called once that hands its (unmodified) parameter back; the caller then changes the variable it
+        # passed in while the result is still needed
+        L += ["def passthru(p):", f"    {cells.next()} = p", "    return p"]
+        calls += [f"    lv = {_dyn(r)}", "    before = passthru(lv)", f"    lv = lv + {r.randint(2, 20)}", f"    {cells.next()} = before", f"    {cells.next()} = lv"]
+    tail = [f"    {cells.next()} = total"] if r.random() < 0.6 else [f"    {cells.next()} = ({_dyn(r)} + 1) * 2"]
+    return HEADER + "\n".join(L + main + calls + tail) + "\n"
 
 
 def suffix_program(r, terminating=False):
